@@ -90,11 +90,11 @@ def finish(pid, args, seed, jobs, results, t0):
     for key, items in sorted(classes.items()):
         items.sort(key=lambda rv: len(rv[1].get('trace', [])))
         r, v = items[0]
-        kid = v.get('known')
-        listed = kid and any(k['id'] == kid and k['property'] == pid for k in known.get('known', []))
-        rep = replay.confirm(pid, v, jobs[0]['mir_cache']) if replayed < 6 else {'status': 'skipped'}
+        rep = replay.confirm(pid, v, jobs[0]['mir_cache']) if replayed < 12 else {'status': 'skipped'}
         replayed += 1
         v['replay'] = rep
+        kid = rep.get('known')
+        listed = kid and any(k['id'] == kid and k['property'] == pid for k in known.get('known', []))
         if rep['status'] == 'confirmed':
             if listed:
                 printed_known[kid] = v
